@@ -380,6 +380,10 @@ class Interp:
         if k == "Pool":
             from .nplib import PoolVal
             return PoolVal()
+        if k == "Fn":
+            # a reference to a package function: Fn(path/to/file.py:name)
+            f_, q_ = p[1].split(":")
+            return PkgFunc(f_.strip(), q_.strip())
         if k == "DType":
             from .nplib import DTypeVal
             return DTypeVal(parse_type("Row(" + p[1] + ")")[1])
